@@ -49,70 +49,73 @@ def stripQuotes (raw : List Char) : Option (List Char) :=
 /-- `c as u16` -/
 def charWord (c : Char) : Word := BitVec.ofNat 16 c.toNat
 
-def lexFail {α : Type} : LexStep → Res α
-  | .diag k o l => .diag k (some (o, l))
-  | .panic s => .panic s
-  | .tok _ _ _ => .panic "lexFail on a token"
+/-- Result of one iteration of a loop: finished, or go round again with a new state. -/
+inductive PreStep where
+  | done (r : Res (List Token))
+  | more (pos : Nat) (rest : List Char) (acc : List Token)
 
-/-- The loop of `preprocess`; `acc` is the result so far, newest first. -/
+/-- One iteration of the loop of `preprocess`; `acc` is the result so far, newest first. -/
+def preprocessStep (feat : Option Bool) (pos : Nat) (rest : List Char) (acc : List Token) : PreStep :=
+  match advanceReal feat pos rest with
+  | .diag k o l => .done (.diag k (some (o, l)))
+  | .panic s => .done (.panic s)
+  | .tok d pos1 rest1 =>
+    match d.kind with
+    | .dir .fill =>
+      match advanceReal feat pos1 rest1 with
+      | .diag k o l => .done (.diag k (some (o, l)))
+      | .panic s => .done (.panic s)
+      | .tok val pos2 rest2 =>
+        match d.span.join? val.span with
+        | none => .done (.panic "Span::join")
+        | some span =>
+          match val.kind with
+          | .lit (.hex v) => .more pos2 rest2 (byteTok v span :: acc)
+          | .lit (.dec v) => .more pos2 rest2 (byteTok v span :: acc)
+          | _ => .done (.diag .preprocBadLit (some (val.span.offs, val.span.len)))
+    | .dir .blkw =>
+      match advanceReal feat pos1 rest1 with
+      | .diag k o l => .done (.diag k (some (o, l)))
+      | .panic s => .done (.panic s)
+      | .tok val pos2 rest2 =>
+        match d.span.join? val.span with
+        | none => .done (.panic "Span::join")
+        | some span =>
+          match val.kind with
+          | .lit (.hex v) => .more pos2 rest2 (List.replicate v.toNat (byteTok 0 span) ++ acc)
+          -- a negative count prints a warning and is then used `as u16`
+          | .lit (.dec v) => .more pos2 rest2 (List.replicate v.toNat (byteTok 0 span) ++ acc)
+          | _ => .done (.diag .preprocBadLit (some (val.span.offs, val.span.len)))
+    | .dir .stringz =>
+      match advanceReal feat pos1 rest1 with
+      | .diag k o l => .done (.diag k (some (o, l)))
+      | .panic s => .done (.panic s)
+      | .tok val pos2 rest2 =>
+        match val.kind with
+        | .lit .str =>
+          match d.span.join? val.span with
+          | none => .done (.panic "Span::join")
+          | some span =>
+            match stripQuotes val.text with
+            | none => .done (.panic "preprocess: str_raw[1..len-1]")
+            | some body =>
+              let bytes := (unescape body).map (fun c => byteTok (charWord c) span)
+              .more pos2 rest2 (byteTok 0 span :: (bytes.reverse ++ acc))
+        | _ => .done (.diag .preprocNoStr (some (val.span.offs, val.span.len)))
+    | .dir .break_ => .more pos1 rest1 ({ kind := .breakpoint, span := d.span, text := [] } :: acc)
+    | .comment => .more pos1 rest1 acc
+    | .whitespace => .more pos1 rest1 acc
+    | .eof => .done (.ok acc.reverse)
+    | .dir .end_ => .done (.ok acc.reverse)
+    | _ => .more pos1 rest1 (d :: acc)
+
+/-- The loop of `preprocess`. -/
 def preprocessLoop (feat : Option Bool) : Nat → Nat → List Char → List Token → Res (List Token)
   | 0, _, _, _ => .panic "fuel"
   | fuel + 1, pos, rest, acc =>
-    match advanceReal feat pos rest with
-    | .diag k o l => .diag k (some (o, l))
-    | .panic s => .panic s
-    | .tok d pos1 rest1 =>
-      match d.kind with
-      | .dir .fill =>
-        match advanceReal feat pos1 rest1 with
-        | .diag k o l => .diag k (some (o, l))
-        | .panic s => .panic s
-        | .tok val pos2 rest2 =>
-          match d.span.join? val.span with
-          | none => .panic "Span::join"
-          | some span =>
-            match val.kind with
-            | .lit (.hex v) => preprocessLoop feat fuel pos2 rest2 (byteTok v span :: acc)
-            | .lit (.dec v) => preprocessLoop feat fuel pos2 rest2 (byteTok v span :: acc)
-            | _ => .diag .preprocBadLit (some (val.span.offs, val.span.len))
-      | .dir .blkw =>
-        match advanceReal feat pos1 rest1 with
-        | .diag k o l => .diag k (some (o, l))
-        | .panic s => .panic s
-        | .tok val pos2 rest2 =>
-          match d.span.join? val.span with
-          | none => .panic "Span::join"
-          | some span =>
-            match val.kind with
-            | .lit (.hex v) =>
-              preprocessLoop feat fuel pos2 rest2 (List.replicate v.toNat (byteTok 0 span) ++ acc)
-            | .lit (.dec v) =>
-              -- a negative count prints a warning and is then used `as u16`
-              preprocessLoop feat fuel pos2 rest2 (List.replicate v.toNat (byteTok 0 span) ++ acc)
-            | _ => .diag .preprocBadLit (some (val.span.offs, val.span.len))
-      | .dir .stringz =>
-        match advanceReal feat pos1 rest1 with
-        | .diag k o l => .diag k (some (o, l))
-        | .panic s => .panic s
-        | .tok val pos2 rest2 =>
-          match val.kind with
-          | .lit .str =>
-            match d.span.join? val.span with
-            | none => .panic "Span::join"
-            | some span =>
-              match stripQuotes val.text with
-              | none => .panic "preprocess: str_raw[1..len-1]"
-              | some body =>
-                let bytes := (unescape body).map (fun c => byteTok (charWord c) span)
-                preprocessLoop feat fuel pos2 rest2 (byteTok 0 span :: (bytes.reverse ++ acc))
-          | _ => .diag .preprocNoStr (some (val.span.offs, val.span.len))
-      | .dir .break_ =>
-        preprocessLoop feat fuel pos1 rest1 ({ kind := .breakpoint, span := d.span, text := [] } :: acc)
-      | .comment => preprocessLoop feat fuel pos1 rest1 acc
-      | .whitespace => preprocessLoop feat fuel pos1 rest1 acc
-      | .eof => .ok acc.reverse
-      | .dir .end_ => .ok acc.reverse
-      | _ => preprocessLoop feat fuel pos1 rest1 (d :: acc)
+    match preprocessStep feat pos rest acc with
+    | .done r => r
+    | .more pos' rest' acc' => preprocessLoop feat fuel pos' rest' acc'
 
 /-- `preprocess(src)` -/
 def preprocess (feat : Option Bool) (src : List Char) : Res (List Token) :=
@@ -372,59 +375,75 @@ def PState.addStmt (st : PState) (tok : Token) (stmt : Stmt) (te : Option Nat) :
     n := st.n + 1
     tokEnd := tokEnd }
 
+/-- Result of one iteration of the parser loop. -/
+inductive ParseStep where
+  | done (r : Res Air)
+  | more (toks : List Token) (st : PState)
+
+/-- `Ok(self.air)` -/
+def PState.air (st : PState) : Air := { orig := st.orig, stmts := st.stmts.reverse, bps := st.bps }
+
+/-- The end of one iteration for a statement: append it, then `self.line += 1` — after the fix of
+D7 a checked increment: when statement 65,535 has been added nothing may follow. -/
+def finishStmt (st : PState) (tok : Token) (r : Res (Stmt × List Token × Option Nat)) : ParseStep :=
+  match r with
+  | .diag k s => .done (.diag k s)
+  | .panic s => .done (.panic s)
+  | .ok (stmt, ts', te) =>
+    let st' := st.addStmt tok stmt te
+    if st.line + 1 > 65535 then
+      match ts' with
+      | [] => .done (.ok st'.air)
+      | nxt :: _ => .done (.diag .tooMany (some (nxt.span.offs, nxt.span.len)))
+    else .more ts' { st' with line := st.line + 1 }
+
+/-- The part of one iteration of `AsmParser::parse` after the optional prefix label. -/
+def parseLine (srcLen : Nat) (labeled : Bool) (toks : List Token) (st : PState) (tbl : SymTab) :
+    ParseStep :=
+  match toks with
+  | [] => if labeled then .done (eofDiag srcLen) else .done (.ok st.air)
+  | tok :: ts =>
+    match tok.kind with
+    | .label => .done (unexpectedDiag tok)
+    | .lit _ => .done (unexpectedDiag tok)
+    | .reg _ => .done (unexpectedDiag tok)
+    | .dir d =>
+      if d ≠ .orig then .done (.panic "assert!(dir == DirKind::Orig)")
+      else
+        match expectLit srcLen (.unsigned 16) ts with
+        | .diag k s => .done (.diag k s)
+        | .panic s => .done (.panic s)
+        | .ok (v, ts', te) =>
+          match st.orig with
+          | some _ => .done (.diag .origTwice none)
+          | none => .more ts' { st with orig := some v, tokEnd := te }
+    | .breakpoint => .more ts { st with bps := bpInsert st.bps (st.n % 65536) }
+    | .instr k => finishStmt st tok (parseInstr srcLen tbl st.line k ts)
+    | .trap k => finishStmt st tok (parseTrap srcLen k ts)
+    | .byte v => finishStmt st tok (.ok (.rawWord v, ts, none))
+    | .whitespace => .done (.panic "unreachable: whitespace in preprocessed stream")
+    | .comment => .done (.panic "unreachable: comment in preprocessed stream")
+    | .eof => .done (.panic "unreachable: eof in preprocessed stream")
+
+/-- One iteration of the loop of `AsmParser::parse`: optional prefix label (entered into the
+symbol table), then one line.  The symbol table is returned in every case. -/
+def parseStep (srcLen : Nat) (toks : List Token) (st : PState) (tbl : SymTab) : ParseStep × SymTab :=
+  match toks with
+  | t :: ts =>
+    if t.kind = .label then
+      match Label.insert tbl t.text st.line with
+      | (tbl', false) => (.done (.diag .dupLabel (some (t.span.offs, t.span.len))), tbl')
+      | (tbl', true) => (parseLine srcLen true ts st tbl', tbl')
+    else (parseLine srcLen false toks st tbl, tbl)
+  | [] => (parseLine srcLen false toks st tbl, tbl)
+
 /-- The loop of `AsmParser::parse`. The symbol table is threaded and returned also on failure. -/
 def parseLoop (srcLen : Nat) : Nat → List Token → PState → SymTab → Res Air × SymTab
   | 0, _, _, tbl => (.panic "fuel", tbl)
   | fuel + 1, toks, st, tbl =>
-    -- optional prefix label
-    let step (labeled : Bool) (toks : List Token) (tbl : SymTab) : Res Air × SymTab :=
-      match toks with
-      | [] =>
-        if labeled then (eofDiag srcLen, tbl)
-        else (.ok { orig := st.orig, stmts := st.stmts.reverse, bps := st.bps }, tbl)
-      | tok :: ts =>
-        let finish (r : Res (Stmt × List Token × Option Nat)) : Res Air × SymTab :=
-          match r with
-          | .diag k s => (.diag k s, tbl)
-          | .panic s => (.panic s, tbl)
-          | .ok (stmt, ts', te) =>
-            let st' := st.addStmt tok stmt te
-            -- fix of D7: `self.line += 1` overflowed after statement 65,535
-            if st.line + 1 > 65535 then
-              match ts' with
-              | [] => (.ok { orig := st'.orig, stmts := st'.stmts.reverse, bps := st'.bps }, tbl)
-              | nxt :: _ => (.diag .tooMany (some (nxt.span.offs, nxt.span.len)), tbl)
-            else parseLoop srcLen fuel ts' { st' with line := st.line + 1 } tbl
-        match tok.kind with
-        | .label => (unexpectedDiag tok, tbl)
-        | .lit _ => (unexpectedDiag tok, tbl)
-        | .reg _ => (unexpectedDiag tok, tbl)
-        | .dir d =>
-          if d ≠ .orig then (.panic "assert!(dir == DirKind::Orig)", tbl)
-          else
-            match expectLit srcLen (.unsigned 16) ts with
-            | .diag k s => (.diag k s, tbl)
-            | .panic s => (.panic s, tbl)
-            | .ok (v, ts', te) =>
-              match st.orig with
-              | some _ => (.diag .origTwice none, tbl)
-              | none => parseLoop srcLen fuel ts' { st with orig := some v, tokEnd := te } tbl
-        | .breakpoint =>
-          parseLoop srcLen fuel ts { st with bps := bpInsert st.bps (st.n % 65536) } tbl
-        | .instr k => finish (parseInstr srcLen tbl st.line k ts)
-        | .trap k => finish (parseTrap srcLen k ts)
-        | .byte v => finish (.ok (.rawWord v, ts, none))
-        | .whitespace => (.panic "unreachable: whitespace in preprocessed stream", tbl)
-        | .comment => (.panic "unreachable: comment in preprocessed stream", tbl)
-        | .eof => (.panic "unreachable: eof in preprocessed stream", tbl)
-    match toks with
-    | t :: ts =>
-      if t.kind = .label then
-        match Label.insert tbl t.text st.line with
-        | (tbl', false) => (.diag .dupLabel (some (t.span.offs, t.span.len)), tbl')
-        | (tbl', true) => step true ts tbl'
-      else step false toks tbl
-    | [] => step false toks tbl
+    match parseStep srcLen toks st tbl with
+    | (.done r, tbl') => (r, tbl')
+    | (.more toks' st', tbl') => parseLoop srcLen fuel toks' st' tbl'
 
 /-- `AsmParser::new(src)?.parse()` -/
 def parse (feat : Option Bool) (tbl : SymTab) (src : List Char) : Res Air × SymTab :=
